@@ -43,8 +43,9 @@ fn main() {
         eprintln!("usage: ttv run <ID> [--tier quick|thorough] [--suite S] | ttv worker ... | ttv replay <FILE>");
         std::process::exit(2);
     }
-    // quiet panics: library panics are caught and reported as violations
-    std::panic::set_hook(Box::new(|_| {}));
+    // quiet panics, but counted: a panic inside a task spawned by the library is swallowed by
+    // the runtime, so the count is the only trace it leaves
+    std::panic::set_hook(Box::new(|info| engine::panics::note(info)));
     engine::logcap::install();
     match args[1].as_str() {
         "run" => std::process::exit(run_parent(&args)),
@@ -118,7 +119,8 @@ fn run_parent(args: &[String]) -> i32 {
             .arg("--out")
             .arg(&out)
             .env("RUST_BACKTRACE", "0")
-            .stdin(Stdio::null());
+            .stdin(Stdio::null())
+            .stderr(Stdio::null());
         if let Some(s) = arg_value(args, "--suite") {
             cmd.arg("--suite").arg(s);
         }
@@ -175,6 +177,11 @@ fn run_parent(args: &[String]) -> i32 {
         }
         let _ = std::fs::remove_file(&out);
         let _ = std::fs::remove_file(&hang_file);
+    }
+
+    if tier == Tier::Thorough && !def.fuzz.is_empty() && arg_value(args, "--suite").is_none() {
+        let runs: u64 = std::env::var("VERIF_FUZZ_RUNS").ok().and_then(|s| s.parse().ok()).unwrap_or(2_000_000);
+        engine::fuzz::run_all(def.id, def.fuzz, runs, seed, &mut report);
     }
 
     finish(def, tier, seed, report, started, &known)
@@ -339,6 +346,19 @@ fn run_replay(args: &[String]) -> i32 {
         strict: true,
         only_suite: None,
     };
+    if let Some(target) = suite.strip_prefix("fuzz-") {
+        return match engine::fuzz::replay(target, body["case"]["artifact_hex"].as_str().unwrap_or("")) {
+            Some(true) => {
+                println!("replayed {} suite={} violations=0", id, suite);
+                0
+            }
+            Some(false) => {
+                println!("VIOLATION property={} replay={}", def.id, path);
+                1
+            }
+            None => 2,
+        };
+    }
     if !(def.replay)(&mut ctx, &suite, &body["case"]) {
         eprintln!("suite {} cannot replay this case", suite);
         return 2;
